@@ -745,6 +745,32 @@ func (ex *Exec) checkExit(st *State, results []*Val) {
 		}
 	}
 	env := &SpecEnv{ex: ex, st: st, vars: vars, cur: st, old: entryView{st}, pkg: ex.topFn.Pkg.Pkg, nextOld: st.next0}
+	// ghost updates attached to the function (executed at its normal exit)
+	for _, gs := range c.GhostSets {
+		call, ok := gs.Target.(*ECall)
+		g := (*GhostDecl)(nil)
+		if ok {
+			g = ex.ct.Ghosts[call.Fn]
+		}
+		if g == nil {
+			ex.fail("ghostset target %s is not a ghost map", gs.Src)
+		}
+		val := env.eval(gs.Value)
+		key := "G:" + g.Name
+		comp := st.comp(key, ex.ghostSort(g, env.pkg))
+		var idx []Term
+		for _, a := range call.Args {
+			idx = append(idx, ex.asKey(env.eval(a)))
+		}
+		switch len(idx) {
+		case 1:
+			st.setComp(key, ex.define(st, key, mkStore(comp, idx[0], val.T)))
+		case 2:
+			st.setComp(key, ex.define(st, key, mkStore(comp, idx[0], mkStore(mkSelect(comp, idx[0]), idx[1], val.T))))
+		default:
+			ex.fail("ghostset with %d keys", len(idx))
+		}
+	}
 	for i, e := range c.Ensures {
 		g := env.evalBool(e)
 		ex.oblige(st, "ensures", clauseLabel(e, i), g, ex.clauseTags(e, c.Tags), e.Src, token.NoPos)
@@ -780,51 +806,62 @@ func (ex *Exec) checkFrame(st *State, c *Contract, env *SpecEnv) {
 		if cur.S == init.S {
 			continue
 		}
-		// index variables down to the leaves
-		var idx []Term
-		so := cur.Sort
-		a, b := cur, init
-		var decls []string
-		for strings.HasPrefix(string(so), "(Array ") {
-			ks := keySortOf(so)
-			n := ex.freshName("fr")
-			decls = append(decls, fmt.Sprintf("(declare-const %s %s)", n, ks))
-			iv := Term{n, ks}
-			idx = append(idx, iv)
-			a, b = mkSelect(a, iv), mkSelect(b, iv)
-			so = elemSortOf(so)
-			if strings.HasPrefix(key, "E:") && len(idx) == 2 {
-				break
-			}
-		}
-		st2 := st
-		// the skolem constants are declared only for this obligation
+		idx, decls := ex.frameIdx(key, cur.Sort, false)
+		goal := ex.frameFormula(key, cur, init, targets, st.next0, idx)
 		lines := append(append([]string(nil), st.lines...), decls...)
-		var allowed []Term
-		allowed = append(allowed, mkEq(a, b))
-		if len(idx) > 0 && idx[0].Sort == SInt && !strings.HasPrefix(key, "G:") {
-			allowed = append(allowed, app(SBool, ">=", idx[0], st.next0)) // allocated during the call
-		}
-		for _, t := range targets {
-			if t.key != key {
-				continue
-			}
-			var conds []Term
-			for i, k := range t.idx {
-				if i < len(idx) {
-					conds = append(conds, mkEq(idx[i], k))
-				}
-			}
-			if t.cond.S != "" {
-				conds = append(conds, t.cond)
-			}
-			allowed = append(allowed, mkAnd(conds...))
-		}
 		name := fmt.Sprintf("%s#frame:%s", shortFn(ex.topKey), shortFn(strings.TrimPrefix(strings.TrimPrefix(key, "F:"), "G:")))
 		ex.oblCount[name]++
-		o := &Obligation{Name: name, Fn: ex.topKey, Class: "frame", Tags: c.Tags, Lines: lines, Goal: mkOr(allowed...), Desc: "only locations in the modifies clause (or freshly allocated ones) change in " + key, Trace: append([]string(nil), st2.trace...), Inst: ex.oblCount[name]}
+		o := &Obligation{Name: name, Fn: ex.topKey, Class: "frame", Tags: c.Tags, Lines: lines, Goal: goal, Desc: "only locations in the modifies clause (or freshly allocated ones) change in " + key, Trace: append([]string(nil), st.trace...), Inst: ex.oblCount[name]}
 		ex.obls = append(ex.obls, o)
 	}
+}
+
+// frameIdx creates index variables (skolem constants, or bound variables) for a heap component.
+func (ex *Exec) frameIdx(key string, so Sort, bound bool) (idx []Term, decls []string) {
+	for strings.HasPrefix(string(so), "(Array ") {
+		ks := keySortOf(so)
+		n := ex.freshName("fr")
+		if bound {
+			decls = append(decls, fmt.Sprintf("(%s %s)", n, ks))
+		} else {
+			decls = append(decls, fmt.Sprintf("(declare-const %s %s)", n, ks))
+		}
+		idx = append(idx, Term{n, ks})
+		so = elemSortOf(so)
+		if strings.HasPrefix(key, "E:") && len(idx) == 2 {
+			break
+		}
+	}
+	return
+}
+
+// frameFormula: at index idx, cur equals base, or the location is a declared target, or it was allocated after nextBase.
+func (ex *Exec) frameFormula(key string, cur, base Term, targets []target, nextBase Term, idx []Term) Term {
+	a, b := cur, base
+	for _, iv := range idx {
+		a, b = mkSelect(a, iv), mkSelect(b, iv)
+	}
+	var allowed []Term
+	allowed = append(allowed, mkEq(a, b))
+	if len(idx) > 0 && idx[0].Sort == SInt && !strings.HasPrefix(key, "G:") {
+		allowed = append(allowed, app(SBool, ">=", idx[0], nextBase))
+	}
+	for _, t := range targets {
+		if t.key != key {
+			continue
+		}
+		var conds []Term
+		for i, k := range t.idx {
+			if i < len(idx) {
+				conds = append(conds, mkEq(idx[i], k))
+			}
+		}
+		if t.cond.S != "" {
+			conds = append(conds, t.cond)
+		}
+		allowed = append(allowed, mkAnd(conds...))
+	}
+	return mkOr(allowed...)
 }
 
 // ---------------------------------------------------------------------------
@@ -863,6 +900,25 @@ func (ex *Exec) runBlock(st *State, b *ssa.BasicBlock, pred *ssa.BasicBlock) {
 					ex.oblige(st, "decreases", fmt.Sprintf("L%d", nl.ordinal), mkAnd(app(SBool, "<", m.T, saved.T), app(SBool, ">=", saved.T, tZero)), ex.loopTags(lc.Decreases, lc), lc.Decreases.Src, token.NoPos)
 				}
 			}
+			if lh := fr.loopHeads[b]; lh != nil {
+				targets := ex.loopTargets(st, lc)
+				for _, k := range lh.keys {
+					so := lh.sorts[k]
+					if !strings.HasPrefix(string(so), "(Array ") {
+						continue
+					}
+					cur := st.comp(k, so)
+					if cur.S == lh.heap[k].S {
+						continue
+					}
+					idx, decls := ex.frameIdx(k, so, false)
+					goal := ex.frameFormula(k, cur, lh.heap[k], targets, lh.next, idx)
+					lines := append(append([]string(nil), st.lines...), decls...)
+					name := fmt.Sprintf("%s#frame:L%d.%s", shortFn(ex.topKey), nl.ordinal, shortFn(strings.TrimPrefix(strings.TrimPrefix(k, "F:"), "G:")))
+					ex.oblCount[name]++
+					ex.obls = append(ex.obls, &Obligation{Name: name, Fn: ex.topKey, Class: "frame", Tags: ex.top.Tags, Lines: lines, Goal: goal, Desc: "one loop iteration writes only inside the frame: " + k, Trace: append([]string(nil), st.trace...), Inst: ex.oblCount[name]})
+				}
+			}
 			ex.endPath(st)
 			return
 		}
@@ -883,15 +939,37 @@ func (ex *Exec) runBlock(st *State, b *ssa.BasicBlock, pred *ssa.BasicBlock) {
 			keys = append(keys, k)
 		}
 		sort.Strings(keys)
+		preLoop := st.snap()
+		preNext := st.next
+		targets := ex.loopTargets(st, lc)
+		lh := &loopHead{heap: map[string]Term{}, keys: keys, sorts: comps}
 		for _, k := range keys {
 			nc := ex.freshConst(st, "loop."+k, comps[k])
 			st.compWF(k, nc)
 			st.setComp(k, nc)
+			lh.heap[k] = nc
+			if strings.HasPrefix(string(comps[k]), "(Array ") {
+				// locations outside the frame keep their pre-loop values
+				idx, decls := ex.frameIdx(k, comps[k], true)
+				body := ex.frameFormula(k, nc, preLoop.comp(k, comps[k]), targets, preNext, idx)
+				pat := nc
+				for _, iv := range idx {
+					pat = mkSelect(pat, iv)
+				}
+				st.emit(fmt.Sprintf("(assert (forall (%s) (! %s :pattern (%s))))", strings.Join(decls, " "), body.S, pat.S))
+			}
 		}
 		// allocation may happen inside the loop
 		nn := ex.freshConst(st, "next", SInt)
 		st.assume(app(SBool, ">=", nn, st.next))
 		st.next = nn
+		lh.next = nn
+		nh := map[*ssa.BasicBlock]*loopHead{}
+		for k, v := range fr.loopHeads {
+			nh[k] = v
+		}
+		nh[b] = lh
+		fr.loopHeads = nh
 		for _, in := range b.Instrs {
 			p, ok := in.(*ssa.Phi)
 			if !ok {
@@ -932,6 +1010,13 @@ func (ex *Exec) runBlock(st *State, b *ssa.BasicBlock, pred *ssa.BasicBlock) {
 }
 
 // loopMeasureKey is a pseudo ssa.Value used to remember the loop measure at the header.
+type loopHead struct {
+	heap map[string]Term
+	next Term
+	keys []string
+	sorts map[string]Sort
+}
+
 type loopMeasureKey struct{ b *ssa.BasicBlock }
 
 func (loopMeasureKey) Name() string                  { return "measure" }
@@ -940,6 +1025,34 @@ func (loopMeasureKey) Type() types.Type              { return types.Typ[types.In
 func (loopMeasureKey) Parent() *ssa.Function         { return nil }
 func (loopMeasureKey) Referrers() *[]ssa.Instruction { return nil }
 func (loopMeasureKey) Pos() token.Pos                { return token.NoPos }
+
+// loopTargets: the frame of a loop: its own modifies clause, else the frame of the function under contract.
+func (ex *Exec) loopTargets(st *State, lc *LoopContract) []target {
+	fr := st.frame
+	if len(lc.Modifies) > 0 {
+		env := ex.loopEnvVarsOnly(st)
+		env.cur = entryView{st}
+		return ex.resolveTargets(env, lc.Modifies)
+	}
+	if fr.parent != nil && len(ex.top.Modifies) == 0 {
+		return nil
+	}
+	env := &SpecEnv{ex: ex, st: st, vars: ex.topVars(st), cur: entryView{st}, old: entryView{st}, pkg: ex.topFn.Pkg.Pkg, nextOld: st.next0}
+	return ex.resolveTargets(env, ex.top.Modifies)
+}
+
+func (ex *Exec) loopEnvVarsOnly(st *State) *SpecEnv {
+	fr := st.frame
+	vars := map[string]*Val{}
+	if fr.parent == nil {
+		vars = ex.topVars(st)
+	} else {
+		for _, p := range fr.fn.Params {
+			vars[p.Name()] = fr.vals[p]
+		}
+	}
+	return &SpecEnv{ex: ex, st: st, vars: vars, cur: st, old: entryView{st}, pkg: fr.fn.Pkg.Pkg, nextOld: st.next0}
+}
 
 func (ex *Exec) loopTags(cl *Clause, lc *LoopContract) []string {
 	if len(cl.Tags) > 0 {
@@ -1500,6 +1613,10 @@ func (ex *Exec) bytesOf(st *State, hv HeapView, s Term) Term {
 	_, comp := ex.elemsComp(hv, types.Typ[types.Uint8])
 	f := ex.uninterp("bytes", []Sort{elemSortOf(comp.Sort), SInt, SInt}, SString)
 	t := Term{fmt.Sprintf("(%s %s %s %s)", f, mkSelect(comp, sArr(s)).S, sOff(s).S, sLen(s).S), SString}
+	if st != nil {
+		// instance of the axiom |bytes(row, off, n)| = n
+		st.assume(mkEq(app(SInt, "str.len", t), mkIte(app(SBool, ">=", sLen(s), tZero), sLen(s), tZero)))
+	}
 	return t
 }
 
